@@ -53,10 +53,12 @@ def run(ctx) -> None:
   ctx.rule('R3', 'stateless policy: fresh designer and all COMPLETED + ACTIVE trials per request', 3)
   ctx.rule('R4', 'trial filter plumbing in both supporters and TrialFilter', 9)
   ctx.rule('R5', 'undecodable state: cache cleared together with the new designer', 1)
+  ctx.rule('R6', 'the service builds a fresh policy per request: the policy factory keeps no policies between calls', 1)
   r1_base_policy(ctx)
   r2_loader(ctx)
   r3_stateless(ctx)
   r4_filters(ctx)
+  r6_fresh_policy(ctx)
 
 
 def _calls(node, name_suffix):
@@ -280,6 +282,28 @@ def r3_stateless(ctx) -> None:
     ok = srcs == ['COMPLETED', 'ACTIVE']
   ctx.check(ok, 'R3', 'update(completed, active) in that order', fi.node, 'update(CompletedTrials(completed), ActiveTrials(active))',
             'Designer.update does not receive (completed trials, active trials)', construct='update-args', func=fi.qualname)
+
+
+# ----------------------------------------------------------------------- R6
+def r6_fresh_policy(ctx) -> None:
+  pf = ctx.index.need_class('vizier._src.service.policy_factory.DefaultPolicyFactory')
+  stores = []
+  for m in pf.methods.values():
+    for x in ast.walk(m.node):
+      tg = x.targets if isinstance(x, ast.Assign) else [x.target] if isinstance(x, (ast.AugAssign, ast.AnnAssign)) else []
+      for t in tg:
+        if flow.root_name(t) == 'self' and not isinstance(t, ast.Name):
+          stores.append((m, x))
+  ps = ctx.index.need_class('vizier._src.service.pythia_service.PythiaServicer')
+  per_request = all(any((dotted(c.func) or '') == 'self._policy_factory' for c in flow.calls_in(ps.methods[n].node))
+                    for n in ('Suggest', 'EarlyStop'))
+  ctx.check(not stores and per_request, 'R6', 'DefaultPolicyFactory is stateless; PythiaServicer calls it per request', pf.node,
+            'no attribute of the factory is written; Suggest/EarlyStop build their policy from the request',
+            (f'the policy factory stores state on itself (`{unparse(stores[0][1], 70)}` in {stores[0][0].name}): a policy object (with its '
+             'designer and trial cache) can outlive the request, so after a study is deleted and re-created under the same name '
+             'the stale designer keeps suggesting for the old search space and never sees the new study\'s trials')
+            if stores else 'PythiaServicer does not build the policy from the request',
+            construct='factory-state', func=pf.qualname)
 
 
 # ----------------------------------------------------------------------- R4
